@@ -3,6 +3,7 @@ package mempool
 import (
 	"bytes"
 	"fmt"
+	"sort"
 	"strings"
 	"sync"
 	"time"
@@ -99,7 +100,7 @@ func NewMiningSetup(c *Concrete) (*MiningSetup, error) {
 		{MaxW: 4000000, MinW: base + 450, Prio: 200000, MinFree: 12000}, // priority area, min weight filled with low-fee transactions
 	}
 	ms.Variants = []Variant{
-		{0, "none", "far", "far"},
+		{0, "none", "wall", "wall"},
 		{1, "p2pkh", "near", "far"},
 		{2, "p2sh", "far", "near"},
 		{0, "p2pkh", "near", "near"},
@@ -131,16 +132,21 @@ type tmplRecord struct {
 	pol  int
 	tla  string
 	desc map[string]any
+	// set when the template was taken in a pool state outside the state graph (OnDiverge):
+	// the observed pool / orphans replace those of the node, whose chain still applies
+	pool, orph string
+	path       []string
 }
 
 // TemplateChecker generates templates at every spec state reached by a replay
 // and validates the records against Mining.tla.
 type TemplateChecker struct {
-	ctx   *vrun.Ctx
-	m     *Model
-	setup *MiningSetup
-	mu    sync.Mutex
-	recs  []tmplRecord
+	ctx      *vrun.Ctx
+	m        *Model
+	setup    *MiningSetup
+	mu       sync.Mutex
+	recs     []tmplRecord
+	diverged map[string]bool
 }
 
 func NewTemplateChecker(ctx *vrun.Ctx, m *Model, setup *MiningSetup) *TemplateChecker {
@@ -179,8 +185,11 @@ func (e *Env) clockAt(class string) (time.Time, error) {
 	if err != nil {
 		return time.Time{}, err
 	}
-	if class == "near" {
+	switch class {
+	case "near":
 		return hdr.Timestamp.Add(time.Minute), nil
+	case "wall":
+		return time.Time{}, nil // Clock.Set(zero): the wall clock
 	}
 	return hdr.Timestamp.Add(30 * time.Minute), nil
 }
@@ -328,6 +337,46 @@ func (tc *TemplateChecker) OnState(e *Env, n *tlc.Node, s *SpecState) error {
 	return nil
 }
 
+// OnDiverge takes templates in a pool state the specification does not reach (a
+// submission was admitted that it refuses).  The records are judged with the
+// observed pool: generation still has to succeed and produce a valid block.
+func (tc *TemplateChecker) OnDiverge(e *Env, cur *tlc.Node, obs *Obs, path []string) {
+	var ids []string
+	var pooled []int
+	for t := range obs.Pool {
+		pooled = append(pooled, t)
+	}
+	sort.Ints(pooled)
+	for _, t := range pooled {
+		ids = append(ids, fmt.Sprint(t))
+	}
+	var os []string
+	for _, t := range obs.Orphans {
+		os = append(os, fmt.Sprint(t))
+	}
+	pool, orph := "{"+strings.Join(ids, ", ")+"}", "{"+strings.Join(os, ", ")+"}"
+	tc.mu.Lock()
+	seen := tc.diverged[pool+"|"+cur.ID]
+	if tc.diverged == nil {
+		tc.diverged = map[string]bool{}
+	}
+	tc.diverged[pool+"|"+cur.ID] = true
+	tc.mu.Unlock()
+	if seen {
+		return
+	}
+	for vi := range tc.setup.Variants {
+		rec, desc := tc.observe(e, vi)
+		if f, _ := desc["foreign_tx"].(bool); f {
+			continue
+		}
+		tc.mu.Lock()
+		tc.recs = append(tc.recs, tmplRecord{node: cur, pol: tc.setup.Variants[vi].Pol, tla: rec, desc: desc, pool: pool, orph: orph, path: path})
+		tc.mu.Unlock()
+		tc.ctx.AddEval(1)
+	}
+}
+
 // FullValidation submits the solved template of the current state to the node
 // itself (used at the end of a path: the environment is discarded afterwards).
 func (tc *TemplateChecker) FullValidation(e *Env) (string, error) {
@@ -368,8 +417,12 @@ func (tc *TemplateChecker) Finish() error {
 	idx := make([]int, len(recs))
 	for i, r := range recs {
 		st := r.node.State
+		pool, orph := domainSet(st["pool"]), st["orph"].String()
+		if r.pool != "" {
+			pool, orph = r.pool, r.orph
+		}
 		entry := fmt.Sprintf(" [r |-> %s, pool |-> %s, orph |-> %s, chain |-> %s, content |-> %s, stale |-> %s]",
-			r.tla, domainSet(st["pool"]), st["orph"].String(), st["chain"].String(), st["content"].String(), st["stale"].String())
+			r.tla, pool, orph, st["chain"].String(), st["content"].String(), st["stale"].String())
 		k, ok := uniq[entry]
 		if !ok {
 			k = len(order)
@@ -415,8 +468,12 @@ func (tc *TemplateChecker) Finish() error {
 		vd := verd[idx[k]]
 		fails := vd.F("f").Strs()
 		for _, f := range fails {
-			tc.ctx.Violation("template:"+f, fmt.Sprintf("universe %s policy %d: template generated in pool state %s violates %q: %v", u.Name, r.pol+1, domainSet(r.node.State["pool"]), f, r.desc),
-				map[string]any{"universe": u, "policy": tc.setup.Policies[r.pol], "spec_state": r.node.State.Go(), "template": r.desc, "path": pathLabels(tc.m.G, r.node)})
+			pool, path := domainSet(r.node.State["pool"]), pathLabels(tc.m.G, r.node)
+			if r.pool != "" {
+				pool, path = r.pool+" (outside the specification: the last submission should have been refused)", r.path
+			}
+			tc.ctx.Violation("template:"+f, fmt.Sprintf("universe %s policy %d: template generated in pool state %s violates %q: %v", u.Name, r.pol+1, pool, f, r.desc),
+				map[string]any{"universe": u, "policy": tc.setup.Policies[r.pol], "spec_state": r.node.State.Go(), "template": r.desc, "path": path})
 		}
 		if len(fails) == 0 && !vd.F("a").Bool() {
 			drift++
